@@ -959,25 +959,6 @@ Lemma gstep_shape_tcp a p os g :
   dial_shape LISTEN a = SvTcp p -> gstep (CmdDialShape a) os g = gstep (CmdDialAddr p false) os g.
 Proof. intros H. unfold gstep. now rewrite H. Qed.
 
-Lemma linv_dial_addr_missing L m g p :
-  LInv m g -> LInv (fst (do_dial_addr_missing L m p)) g.
-Proof.
-  intros I. unfold do_dial_addr_missing.
-  destruct (limit_reached (max_out L) (outs m)); [exact I|].
-  assert (I0 : LInv (set_known (bump_conn m) p) g).
-  { eapply linv_frame; [| | | |exact I]; try reflexivity. cbn [set_known bump_conn next_conn]. lia. }
-  rewrite so_known, so_bump.
-  destruct (can_dial (state_of m p)) eqn:Eg; try exact I0.
-  cbn [fst]. apply can_dial_ok in Eg.
-  assert (Hcl : st_on_dial_failure (Dialing (next_conn m)) (next_conn m) = Disconnected None).
-  { cbn [st_on_dial_failure]. assert (next_conn m =? next_conn m = true) as -> by lia. reflexivity. }
-  rewrite Hcl.
-  apply (linv_same_record (set_known (bump_conn m) p) g p (Disconnected None)); auto.
-  - intros q. rewrite !state_of_set_state. destruct (q =? p); reflexivity.
-  - rewrite so_known, so_bump, Eg. reflexivity.
-  - intros x. rewrite so_known, so_bump, Eg. split; discriminate.
-Qed.
-
 Lemma linv_dial_shape L m g a :
   LInv m g ->
   LInv (fst (do_dial_shape L m a)) (gstep (CmdDialShape a) (snd (do_dial_shape L m a)) g).
@@ -995,10 +976,7 @@ Proof.
              end; injection Es as <-; reflexivity. }
     rewrite gstep_quiet_cmd; [exact I | now apply quiet_ret | exact Logic.I].
   - rewrite (gstep_shape_tcp a p _ g Es). now apply linv_dial_addr.
-  - assert (Hq : quiet (snd (do_dial_addr_missing L m p))).
-    { unfold do_dial_addr_missing. destruct (limit_reached _ _); [apply quiet_ret; reflexivity|].
-      destruct (can_dial _); apply quiet_ret; reflexivity. }
-    rewrite gstep_quiet_cmd; [now apply linv_dial_addr_missing | exact Hq | exact Logic.I].
+  - cbn [fst snd]. rewrite gstep_quiet_cmd; [exact I | apply quiet_ret; reflexivity | exact Logic.I].
 Qed.
 
 Lemma linv_init : LInv init g0.
